@@ -148,29 +148,25 @@ def node(cls, n=(), v=(), kids=(), **extra):
 
 
 def ser(e) -> str:
+    """expression -> model syntax.  n -> { } (registers n0..n5), v -> [ ] (v0..v2), extra buf/buf2 -> [[ ]] / [[[ ]]],
+    extra tape -> < >"""
     if e[0] == "lit":
         return lit_tok(e[1])
     _, cls, n, v, kids, extra = e
     parts = ["(", cls]
-    if n or v or extra.get("tape"):
-        parts += ["{"] + [str(int(x)) for x in n] + ["}"]
-    if v or extra.get("tape"):
+    parts += ["{"] + [str(int(x)) for x in n] + ["}"]
+    if v:
         parts += ["["] + [lit_tok(x) for x in v] + ["]"]
+    if extra.get("buf") is not None:
+        parts += ["[["] + [lit_tok(x) for x in extra["buf"]] + ["]]"]
+    if extra.get("buf2") is not None:
+        parts += ["[[["] + [lit_tok(x) for x in extra["buf2"]] + ["]]]"]
     if extra.get("tape"):
         parts += ["<"] + list(extra["tape"]) + [">"]
     for k in kids:
         parts.append(ser(k))
     parts.append(")")
-    s = " ".join(parts)
-    w = extra.get("wrap")
-    if w == "const":
-        s = "( ref " + s + " )" if False else s   # PConstant(x) of a literal is the same node: handled below
-    return s
-
-
-def ser_wrapped(e) -> str:
-    """C12: a literal may be passed as PConstant(x) or PRef(PConstant(x)); the model sees const / ref(const)."""
-    return ser(e)
+    return " ".join(parts)
 
 
 class RecRandom(__import__("random").Random):
@@ -208,9 +204,6 @@ def build(e, recorders=None):
         obj.seed(seed)
         rr.tape = []
         recorders.append((e, rr))
-    w = extra.get("wrap")
-    if w == "const":
-        obj = iso.PConstant(obj) if not isinstance(obj, iso.Pattern) else obj
     return obj
 
 
